@@ -18,7 +18,7 @@ ASSUMPTIONS = [
     'each in [0, high) (numpy contract); two generators built from the same seed yield the same stream',
     'Python set semantics through __eq__ of symbolic integers (constant hash)',
 ]
-OUTSIDE = ['streams needing more than L draws (Cut)', 'high > 4 (the code does not depend on the magnitude of high '
+OUTSIDE = ['streams needing more than L draws (Cut)', 'high > 4 other than 2**31 and 2**32 (the code does not depend on the magnitude of high '
            'other than through comparisons, but this is not proved)', 'the Mersenne twister itself']
 
 
@@ -151,6 +151,8 @@ HARNESSES = [
     H('history3_L7', h_history, dict(L=7, hist=3, high_max=3), bounds='L=7, high in [1,3], 3 calls', tiers=('thorough',)),
     H('history2_L6_high4', h_history, dict(L=6, hist=2, high_max=4), bounds='L=6, high in [1,4], 2 calls', tiers=('thorough',)),
     H('default_high_L4_h2', h_default_high, dict(L=4, hist=2), bounds='high=2**31, L=4, 2 calls, indices in [-1, 2**31]'),
+    H('uint32_range_high_L4_h2', h_history, dict(L=4, hist=2, fixed_high=2 ** 32),
+      bounds='high=2**32 (the largest range the uint32 draw accepts), stream values arbitrary in [0, 2**32), L=4, 2 calls'),
     H('default_high_L6_h3', h_default_high, dict(L=6, hist=3), bounds='high=2**31, L=6, 3 calls', tiers=('thorough',)),
 ]
 
